@@ -258,7 +258,7 @@ PROPS['C14'] = {
 PROPS['C08'] = {
     'title': 'A snapshot taken under concurrent commits restores to a consistent cut',
     'modules': ['ColumnVerif.Props.C08', 'ColumnVerif.Props.C08store', 'ColumnVerif.Props.C08skel'],
-    'runs': [{'mode': 'sched'}],
+    'runs': [{'mode': 'sched'}, {'mode': 'store'}],
     'skeleton': True,
     'trusted_base': CONC_TB,
     'assumptions': [
